@@ -13,6 +13,7 @@ structure DState where
   budget : Int := 0
   items : List Item := []     -- reversed
   arows : List ARow := []     -- reversed (agent cases)
+  left : List Item := []      -- rows left in the SamplerBuffers by the previous `run` of this case
   draws : List Nat := []
   ok : Bool := true
 
@@ -87,7 +88,7 @@ def errsOf : List Act → List String
 /-- more than one decision for a row would show up as a repeated `ev` line -/
 def renderRun (s : DState) : List String :=
   let items := s.items.reverse
-  let acts := runBucket s.cfg items s.budget s.draws
+  let acts := (runShared s.cfg s.left items s.budget s.draws).1
   let es := (evs acts).toArray.qsort (fun a b => a.id < b.id) |>.toList
   errsOf acts ++ es.map showEv ++ (metricGroups s.cfg items s.budget s.draws).map showG
 
@@ -182,7 +183,7 @@ def dstep (s : DState) (toks : List String) : DState × List String :=
   match toks with
   | "cfg" :: rest =>
     match parseCfg rest with
-    | some (cfg, b) => ({ cfg := cfg, budget := b }, [])
+    | some (cfg, b) => ({ cfg := cfg, budget := b, left := s.left }, [])
     | none => ({ s with ok := false }, ["bad-op"])
   | "item" :: rest =>
     match parseItem rest with
@@ -192,7 +193,8 @@ def dstep (s : DState) (toks : List String) : DState × List String :=
     match parseNatList? l with
     | some ds => ({ s with draws := ds }, [])
     | none => ({ s with ok := false }, ["bad-op"])
-  | ["run"] => if s.ok then (s, renderRun s) else (s, ["bad-op"])
+  | ["run"] =>
+    if s.ok then ({ s with left := (runShared s.cfg s.left s.items.reverse s.budget s.draws).2 }, renderRun s) else (s, ["bad-op"])
   | "aitem" :: b :: rest =>
     match parseItem rest, b with
     | some it, "1" => ({ s with arows := { item := it, bypass := true } :: s.arows }, [])
